@@ -48,7 +48,20 @@ def check(ctx: Ctx) -> str:
     ef = repo.func("meta:TrackingCodeGenerator.enter_frame")
     s = ast.unparse(ef.node)
     const = repo.const("idtracking:VAR_LOAD_RESOLVE")
-    ctx.check("super().enter_frame(frame)" in s and "for _, (action, param) in frame.symbols.loads.items():" in s, "tracking:loop", "meta:TrackingCodeGenerator.enter_frame", "iterates the frame's loads", "the tracking generator must call the base enter_frame and iterate frame.symbols.loads", ef.loc())
+    ld_loops = [l for l in ast.walk(ef.node) if isinstance(l, ast.For) and ast.unparse(l.iter) in ("frame.symbols.loads.items()", "frame.symbols.loads.values()")]
+    pair = None
+    if len(ld_loops) == 1:
+        tg = ld_loops[0].target
+        if ast.unparse(ld_loops[0].iter).endswith(".items()") and isinstance(tg, ast.Tuple) and len(tg.elts) == 2:
+            tg = tg.elts[1]
+        if isinstance(tg, ast.Tuple) and len(tg.elts) == 2 and all(isinstance(e_, ast.Name) for e_ in tg.elts):
+            pair = (tg.elts[0].id, tg.elts[1].id)  # type: ignore[attr-defined]
+    # the rule texts below speak of (action, param): map the loop's own names onto them
+    if pair is not None and pair != ("action", "param"):
+        import re as _re
+
+        s = _re.sub(rf"\b{pair[0]}\b", "action", _re.sub(rf"\b{pair[1]}\b", "param", s))
+    ctx.check("super().enter_frame(frame)" in s and pair is not None and not any(isinstance(x, (ast.Break, ast.Return)) for x in ast.walk(ld_loops[0])), "tracking:loop", "meta:TrackingCodeGenerator.enter_frame", "iterates the frame's loads", "the tracking generator must call the base enter_frame and iterate frame.symbols.loads", ef.loc())
     cmp_ = [n_ for n_ in ast.walk(ef.node) if isinstance(n_, ast.Compare) and ast.unparse(n_.left) == "action"]
     ok = len(cmp_) == 1 and isinstance(cmp_[0].comparators[0], ast.Constant) and cmp_[0].comparators[0].value == const
     ok = ok or (len(cmp_) == 1 and ast.unparse(cmp_[0].comparators[0]) == "VAR_LOAD_RESOLVE")
